@@ -272,6 +272,12 @@ func grpcErrors(server bool) []namedErr {
 			namedErr{"raw:context.DeadlineExceeded", context.DeadlineExceeded, false},
 			namedErr{"nested:ErrServiceUnavailable", breaker.ErrServiceUnavailable, false},
 		)
+	} else {
+		// a nested breaker's sentinel carries no gRPC status: code Unknown, not a listed failure
+		out = append(out,
+			namedErr{"nested:ErrServiceUnavailable", breaker.ErrServiceUnavailable, true},
+			namedErr{"nested-wrapped:ErrServiceUnavailable", errWrapped, true},
+		)
 	}
 	return out
 }
@@ -450,6 +456,11 @@ func redisErrors() []namedErr {
 		{"plain-error", errors.New("ERR c01"), false},
 		{"tx-failed", red.TxFailedErr, false},
 		{"closed", red.ErrClosed, false},
+		// the command failed with another breaker's rejection (stacked breakers): a failure of
+		// this call, admitted like any other: run once, error unchanged
+		{"nested:ErrServiceUnavailable", breaker.ErrServiceUnavailable, false},
+		{"nested-wrapped:ErrServiceUnavailable", errWrapped, false},
+		{"same-text-as-sentinel", errSameText, false},
 	}
 }
 
@@ -530,6 +541,8 @@ func sqlErrors() []namedErr {
 		{"sql.ErrConnDone", sql.ErrConnDone, false},
 		{"plain-error", errors.New("c01 db down"), false},
 		{"user-accepted", errUserOK, false}, // success only with the WithAcceptable option
+		{"nested:ErrServiceUnavailable", breaker.ErrServiceUnavailable, false},
+		{"nested-wrapped:ErrServiceUnavailable", errWrapped, false},
 	}
 }
 
